@@ -157,8 +157,12 @@ def run_case(ctx, desc):
         oth = [a for a in cm if a != a0][0]
         odims = [{cm[a0]["left"]: cm[a0]["center"], cm[oth]["center"]: cm[oth]["left"]}.get(d, d) for d in dims]
         partner = xr.DataArray(gen.quarter_data(desc["dseed"] + 5, [ds.sizes[d] for d in odims]), dims=odims, name="partner_component")
+        if desc["dseed"] % 2:
+            # the partner may carry labels of its own on the face dimension (a permutation of the face numbers): labels of
+            # an input never decide which values are used
+            partner = partner.assign_coords(face=("face", np.arange(ds.sizes["face"])[::-1]))
 
-        def run(x):
+        def run(x, partner=partner):
             return getattr(g, op)({a0: x}, a0, other_component={oth: partner}, **kw)
     else:
         def run(x):
@@ -199,6 +203,17 @@ def run_case(ctx, desc):
     if set(r.dims) != set(rdims):
         ctx.violation("result-dims", f"{r.dims} vs {rdims}")
         return
+    if desc.get("vector") and "face" in partner.coords:
+        # ... nor do the labels carried by the partner component
+        ctx.judged(("label-independence", "partner-labels", op), True)
+        try:
+            rp = run(da, partner.drop_vars("face"))
+            if tuple(rp.dims) != tuple(r.dims) or not np.array_equal(rp.values, r.values):
+                ctx.violation("values-independent-of-labels", f"{op}: values change when the partner component carries (permuted) face labels")
+                return
+        except Exception as e:
+            ctx.violation("values-independent-of-labels", f"{op} with an unlabelled partner raised {type(e).__name__}: {str(e)[:200]}")
+            return
     # label independence: same call with the labels removed / scrambled
     variants = [("bare" if desc["carry"] else "carry", bare if desc["carry"] else
                  bare.assign_coords({c: v for c, v in ds.coords.items() if set(v.dims) <= set(dims)}))]
